@@ -470,8 +470,47 @@ let parse_case c =
   | ParseNeed -> Printf.printf "id=%s\tneed=parse\n" (field c "id")
   | ParseFuel -> Printf.printf "id=%s\tfuel=parse\n" (field c "id")
 
+(* verify: run the proved-in-Coq byte-code verifier on a program as Go produced it *)
+let code_of_hex (h : string) : n list =
+  List.init (String.length h / 2) (fun i -> n_of_int (int_of_string ("0x" ^ String.sub h (2*i) 2)))
+let dec_program (s : string) : program_code =
+  (* C<v,v..>~M<hex>~F<namehex>.<p1_p2>.<hex>+... *)
+  match Str.split_delim (Str.regexp "~") s with
+  | [c; m; f] ->
+    let consts = List.map dec_value (split_top (String.sub c 1 (String.length c - 1)) ',') in
+    let main = code_of_hex (String.sub m 1 (String.length m - 1)) in
+    let fs = String.sub f 1 (String.length f - 1) in
+    let funcs = if fs = "" then [] else List.map (fun x ->
+      match String.split_on_char '.' x with
+      | [nm; ps; body] ->
+        (str_of_string (unhex nm),
+         { fparams = (if ps = "" then [] else List.map (fun p -> str_of_string (unhex p)) (String.split_on_char '_' ps));
+           fcode = code_of_hex body })
+      | _ -> failwith "bad function") (String.split_on_char '+' fs) in
+    { pconsts = consts; pmain = main; pfuncs = funcs }
+  | _ -> failwith "bad program"
+let reason_string = function
+  | VUnknownOpcode ip -> Printf.sprintf "unknown-opcode@%d" (int_of_n ip)
+  | VTruncated ip -> Printf.sprintf "truncated-operand@%d" (int_of_n ip)
+  | VBadJump ip -> Printf.sprintf "bad-jump@%d" (int_of_n ip)
+  | VBadConstant ip -> Printf.sprintf "bad-constant@%d" (int_of_n ip)
+  | VNameNotString ip -> Printf.sprintf "name-not-string@%d" (int_of_n ip)
+  | VUnderflow ip -> Printf.sprintf "underflow@%d" (int_of_n ip)
+  | VNotInductive ip -> Printf.sprintf "not-inductive@%d" (int_of_n ip)
+  | VFallsOff -> "function-falls-off-its-end"
+  | VNoFixpoint -> "no-fixpoint"
+  | VIterNoJump ip -> Printf.sprintf "iteration-without-jump@%d" (int_of_n ip)
+let verify_case c =
+  let v = match verify_program (dec_program (field c "prog")) with VOk -> "ok" | VBad r -> "bad:" ^ reason_string r in
+  let moded = if field c "script" = "" then "" else
+    (match parse_script parse_float_oracle max_depth (str_of_string (unhex (field c "script"))) with
+     | ParseOk ast -> if well_moded ast then "\tmoded=1" else "\tmoded=0"
+     | _ -> "\tmoded=na") in
+  Printf.printf "id=%s\tverify=%s%s\n" (field c "id") v moded
+
 let run_case c =
-  if String.length (field c "script") > 400000 then Printf.printf "id=%s\tneed=big\n" (field c "id") else
+  if field c "kind" = "verify" then verify_case c else
+  if String.length (field c "script") > 40000 then Printf.printf "id=%s\tneed=big\n" (field c "id") else
   match field c "kind" with
   | "lex" -> lex_case c
   | "parse" -> parse_case c
